@@ -423,9 +423,15 @@ func (i *interpreter) tapeFromModel(vals []sym.Val) []TapeEnt {
 				e.V = strconv.FormatInt(int64(v.U), 10)
 			case "f64", "rand.f64":
 				if v.R != nil {
-					f, _ := v.R.Float64()
+					f, exact := v.R.Float64()
+					if t.kind == "rand.f64" && f >= 1 {
+						f = math.Nextafter(1, 0) // rand.Float64() is < 1; the model value rounded up to 1
+					}
 					e.V = strconv.FormatFloat(f, 'x', -1, 64)
 					e.N += " = " + v.R.RatString()
+					if !exact {
+						e.N += " (rounded: not a float64)"
+					}
 				} else {
 					e.V = "0x0p+00"
 					e.N += " (inexact: " + v.Raw + ")"
